@@ -1,7 +1,8 @@
 (* Proofs/ProgSim.v — C03: whole-program simulation for a fragment of BASIC.
 
    The fragment: scalar assignment, PRINT (expressions, `;`, `,`), GOTO,
-   GOSUB, RETURN, FOR/TO/STEP, NEXT, IF c THEN <line>, END — expressions from the fragment of C02 (literals,
+   GOSUB, RETURN, FOR/TO/STEP, NEXT, IF c THEN <line>, IF c THEN <statement>,
+   END — expressions from the fragment of C02 (literals,
    variables, unary and binary operators, ABS, INT, parentheses).  It is a
    language of counter machines: programs in it loop, branch and need not
    terminate.
@@ -57,7 +58,10 @@ Inductive SRen (F : nat) (d : nat) (rest : list token) : rstmt -> list token -> 
      (exists c c' tc, stp = Some c /\ tstep = TStep :: tc /\ tr c = Some c' /\ Renders 0 c' tc
                       /\ S d + pdepth c' < max_nesting /\ xsize c <= F)) ->
     SRen F d rest (SFor v a b stp) (TFor :: TSymbol v :: TEquals :: ta ++ TTo :: tb ++ tstep)
-| SR_next v : SRen F d rest (SNext v) [TNext; TSymbol v].
+| SR_next v : SRen F d rest (SNext v) [TNext; TSymbol v]
+| SR_if_stmt c c' tc stmt tn : tr c = Some c' -> Renders 0 c' tc -> S d + pdepth c' < max_nesting -> xsize c <= F ->
+    Nat.eqb (S d) max_nesting = false -> SRen F (S d) rest stmt tn ->
+    SRen F d rest (SIf c (AStmt stmt) None) (TIf :: tc ++ TThen :: tn).
 
 (* a line: statements joined by colons *)
 Inductive LRen (F : nat) : list rstmt -> list token -> Prop :=
@@ -903,6 +907,115 @@ Section Step.
 End Step.
 
 (* ------------------------------------------------------------------ *)
+(* 3b. IF c THEN <statement>: the clause is a statement one level down *)
+
+(* tokens the skipping loop of a false IF passes over *)
+Definition plain_tok (t : token) : bool := negb (token_eqb t TColon || token_eqb t TElse).
+
+Lemma forallb_app' {A} (f : A -> bool) a b : forallb f (a ++ b) = forallb f a && forallb f b.
+Proof. induction a as [|x a IH]; cbn; [reflexivity|]. rewrite IH, andb_assoc. reflexivity. Qed.
+
+Lemma Renders_plain k e ts : Renders k e ts -> forallb plain_tok ts = true.
+Proof.
+  induction 1 as [x|b|name|e ts H IH|e ts H IH|e ts H IH|op e ts H IH|op a b ta tb Ha IHa Hb IHb|k e ts Hk H IH];
+    try reflexivity; try exact IH.
+  - cbn [forallb]. rewrite forallb_app', IH. reflexivity.
+  - cbn [forallb]. rewrite forallb_app', IH. reflexivity.
+  - cbn [forallb]. rewrite forallb_app', IH. reflexivity.
+  - cbn [forallb]. rewrite IH. destruct op; reflexivity.
+  - rewrite forallb_app'. cbn [forallb]. rewrite IHa, IHb.
+    destruct op as [| |c|[]|[]|]; try reflexivity. destruct c; reflexivity.
+Qed.
+
+Lemma IRenders_plain rest items ts : IRenders rest items ts -> forallb plain_tok ts = true.
+Proof.
+  induction 1 as [Hend|r0 ts H IH|r0 ts H IH|e te r0 ts He Hst H IH]; try reflexivity.
+  - cbn [forallb]. rewrite IH. reflexivity.
+  - cbn [forallb]. rewrite IH. reflexivity.
+  - rewrite forallb_app', (Renders_plain _ _ _ He), IH. reflexivity.
+Qed.
+
+Lemma token_neq_else t : t <> TElse -> token_eqb t TElse = false.
+Proof. intros H. destruct t; try reflexivity. congruence. Qed.
+
+Section Scan.
+  Variable s : interp.
+  Variable toks : list token.
+  Hypothesis Htoks : fst (cur_tokens s) = Ok toks.
+  Variable rec : M unit.
+
+  Definition skip_body : unit -> M (unit + unit) := fun _ : unit =>
+    t <- next_token ;;
+    match t with
+    | None => ret (inr tt)
+    | Some TColon => discard_remaining_tokens ;;; ret (inl tt)
+    | Some TElse => statement_or_goto_line_number rec ;;; ret (inr tt)
+    | Some _ => ret (inl tt)
+    end.
+
+  (* a false IF skips the clause and everything behind it on the line *)
+  Lemma scan_skip rest o : (rest = [] \/ exists tr, rest = TColon :: tr) ->
+    forall ts j r n, forallb plain_tok ts = true -> skipn j toks = ts ++ rest ->
+      j + length ts + length rest = length toks -> length ts + 3 <= n ->
+      exists r', repeat_m n skip_body tt (at_idx s j r o) = (Ok tt, at_idx s (length toks) r' o).
+  Proof.
+    intros Hrest. induction ts as [|t ts IH]; intros j r n Hp Hsk Hlen Hn.
+    - cbn [app] in Hsk. cbn [length] in Hlen.
+      destruct n as [|n]; [lia|]. rewrite repeat_m_S. unfold skip_body at 1.
+      destruct Hrest as [->|(tr0 & ->)].
+      + assert (Hnone : nth_error toks j = None) by (apply skipn_nil_nth; exact Hsk).
+        assert (Hnt : next_token (at_idx s j r o) = (Ok None, at_idx s j (S r) o)).
+        { unfold next_token. erewrite bind_ok by apply (peek_at s toks Htoks). rewrite Hnone. reflexivity. }
+        erewrite bind_ok by (erewrite bind_ok by exact Hnt; reflexivity). cbv iota. cbn [ret].
+        cbn [length] in Hlen. replace (length toks) with j by lia. eexists. reflexivity.
+      + destruct (skipn_cons_nth _ _ _ _ Hsk) as [Hc _].
+        assert (Hdisc : discard_remaining_tokens (at_idx s (S j) (S r) o) = (Ok tt, at_idx s (length toks) (S r) o)).
+        { unfold discard_remaining_tokens. erewrite bind_ok by apply (cur_tokens_at s toks Htoks). reflexivity. }
+        erewrite bind_ok by (erewrite bind_ok by (apply (next_some s toks Htoks); exact Hc); cbv iota;
+                             erewrite bind_ok by exact Hdisc; reflexivity).
+        cbv iota. destruct n as [|n]; [lia|]. rewrite repeat_m_S. unfold skip_body at 1.
+        assert (Hnone : nth_error toks (length toks) = None) by (apply nth_error_None; apply le_n).
+        assert (Hnt : next_token (at_idx s (length toks) (S r) o) = (Ok None, at_idx s (length toks) (S (S r)) o)).
+        { unfold next_token. erewrite bind_ok by apply (peek_at s toks Htoks). rewrite Hnone. reflexivity. }
+        erewrite bind_ok by (erewrite bind_ok by exact Hnt; reflexivity). cbv iota. cbn [ret].
+        eexists. reflexivity.
+    - cbn [app] in Hsk. cbn [forallb] in Hp. apply andb_true_iff in Hp. destruct Hp as [Hp1 Hp2].
+      destruct (skipn_cons_nth _ _ _ _ Hsk) as [Hc Hsk'].
+      destruct n as [|n]; [cbn [length] in Hn; lia|]. rewrite repeat_m_S. unfold skip_body at 1.
+      assert (Hstep : (t0 <- next_token ;;
+                       match t0 with
+                       | None => ret (inr tt)
+                       | Some TColon => discard_remaining_tokens ;;; ret (inl tt)
+                       | Some TElse => statement_or_goto_line_number rec ;;; ret (inr tt)
+                       | Some _ => ret (inl tt)
+                       end) (at_idx s j r o) = (Ok (inl tt), at_idx s (S j) (S r) o)).
+      { erewrite bind_ok by (apply (next_some s toks Htoks); exact Hc).
+        unfold plain_tok in Hp1. destruct t; try reflexivity; discriminate. }
+      erewrite bind_ok by exact Hstep. cbv iota.
+      apply IH; [exact Hp2 | exact Hsk' | cbn [length] in Hlen; lia | cbn [length] in Hn; lia].
+  Qed.
+End Scan.
+
+Lemma SRen_plain F d rest stmt ts : SRen F d rest stmt ts -> forallb plain_tok ts = true.
+Proof.
+  induction 1 as [d rest v e e' te H1 H2 H3 H4 H5|d rest items mitems ti H1 H2 H3 H4|d rest n x H1|d rest n x H1|d rest|d rest
+                 |d rest c c' tc n x H1 H2 H3 H4 H5
+                 |d rest v a a' ta b b' tb stp tstep A1 A2 A3 A4 B1 B2 B3 B4 HC|d rest v
+                 |d rest c c' tc stmt tn H1 H2 H3 H4 H5 H6 IH]; try reflexivity.
+  - cbn [forallb]. rewrite (Renders_plain _ _ _ H2). reflexivity.
+  - cbn [forallb]. rewrite (IRenders_plain _ _ _ H2). reflexivity.
+  - cbn [forallb]. rewrite forallb_app', (Renders_plain _ _ _ H2). reflexivity.
+  - cbn [forallb]. rewrite forallb_app', (Renders_plain _ _ _ A2). cbn [forallb].
+    rewrite forallb_app', (Renders_plain _ _ _ B2).
+    destruct HC as [[_ ->]|(c & c' & tc & _ & -> & _ & Hr & _)]; [reflexivity|].
+    cbn [forallb]. rewrite (Renders_plain _ _ _ Hr). reflexivity.
+  - cbn [forallb]. rewrite forallb_app', (Renders_plain _ _ _ H2). cbn [forallb]. rewrite IH. reflexivity.
+Qed.
+
+Lemma SRen_head F d rest stmt ts : SRen F d rest stmt ts -> exists t ts', ts = t :: ts' /\ forall x, t <> TNumber x.
+Proof. destruct 1; eexists _, _; (split; [reflexivity | intros x0; discriminate]). Qed.
+
+(* ------------------------------------------------------------------ *)
 (* 4. host calls *)
 
 From Abasic Require Import Proofs.Safety Proofs.InputProofs.
@@ -993,6 +1106,198 @@ Qed.
 (* [reach P s]: every run of host calls from [s], each made with enough fuel,
    passes — after finitely many calls that all return normally — through a
    state satisfying [P] *)
+(* ------------------------------------------------------------------ *)
+(* 4b. IF c THEN <statement> steps as the clause does *)
+
+Lemma cur_tokens_ok_inv s toks : fst (cur_tokens s) = Ok toks -> line_exists s (loc s) /\ cur_toks s = toks.
+Proof.
+  unfold cur_tokens, cur_toks, line_exists, line_ok. rewrite StoreProofs.bind_get. unfold tokens_for_line.
+  destruct (loc_line (loc s)) as [n|]; cbn [fst].
+  - destruct (toks_get n (st_toks s)) as [ts|]; cbn [fst]; intros H; [|discriminate].
+    inversion H. split; [discriminate | reflexivity].
+  - intros H. inversion H. split; [exact I | reflexivity].
+Qed.
+
+Definition else_probe : M unit := e <- peek_is TElse ;; if e then discard_remaining_tokens else ret tt.
+
+Lemma probe_no_else s' : line_exists s' (loc s') -> nth_error (cur_toks s') (loc_idx (loc s')) <> Some TElse ->
+  else_probe s' = (Ok tt, bump s').
+Proof.
+  intros Hle Hne. unfold else_probe, peek_is. rewrite bind_assoc.
+  erewrite bind_ok by (apply peek_eq; exact Hle). rewrite bind_ret'.
+  destruct (nth_error (cur_toks s') (loc_idx (loc s'))) as [t|]; [|reflexivity].
+  rewrite token_neq_else by congruence. reflexivity.
+Qed.
+
+Section StepIf.
+  Variable F : nat.
+  Variable p : rprogram.
+  Variable s : interp.
+  Variable toks : list token.
+  Hypothesis Htoks : fst (cur_tokens s) = Ok toks.
+  Hypothesis Htrace : enable_tracing s = false.
+  Hypothesis Hwarn : enable_warnings s = false.
+  (* every program line is stored and does not start with ELSE *)
+  Hypothesis Hlines : forall li n stmts, nth_error p li = Some (n, stmts) ->
+    exists t l', toks_get n (st_toks s) = Some (t :: l') /\ t <> TElse.
+  (* where a RETURN or a NEXT can land there is no ELSE *)
+  Definition lands_ok (l : location) : Prop :=
+    exists n ts, loc_line l = Some n /\ toks_get n (st_toks s) = Some ts /\ nth_error ts (loc_idx l) <> Some TElse.
+  Hypothesis Hland_calls : forall fr, In fr (stack s) -> lands_ok (fr_ret fr).
+  Hypothesis Hland_loops : forall lp, In lp (loops s) -> lands_ok (lp_loc lp).
+  Variable d : nat.
+  Hypothesis Hd : Nat.eqb d max_nesting = false.
+  Variables (li : nat) (after : rpc) (st : rstate).
+  Hypothesis Hrel : same_store st s.
+
+  Lemma probe_at s' n ts : keeps s s' -> loc_line (loc s') = Some n -> toks_get n (st_toks s) = Some ts ->
+    nth_error ts (loc_idx (loc s')) <> Some TElse -> else_probe s' = (Ok tt, bump s').
+  Proof.
+    intros (K1 & _) Hl Ht Hne. apply probe_no_else.
+    - unfold line_exists, line_ok. rewrite Hl, K1, Ht. discriminate.
+    - unfold cur_toks. rewrite Hl, K1, Ht. exact Hne.
+  Qed.
+
+  Lemma probe_same_line s' : keeps s s' -> loc_line (loc s') = loc_line (loc s) ->
+    nth_error toks (loc_idx (loc s')) <> Some TElse -> else_probe s' = (Ok tt, bump s').
+  Proof.
+    intros (K1 & K2 & K3 & K4 & K5 & K6) Hl Hne.
+    destruct (cur_tokens_ok_inv s toks Htoks) as [Hle Hct].
+    assert (Hct' : cur_toks s' = toks) by (unfold cur_toks in *; rewrite Hl, K1, K6; exact Hct).
+    apply probe_no_else.
+    - unfold line_exists in *. rewrite Hl, K1. exact Hle.
+    - rewrite Hct'. exact Hne.
+  Qed.
+
+  Lemma outcome_bump out i ts s' o :
+    step_outcome p s toks li after st out i ts (Ok tt, s') o ->
+    step_outcome p s toks li after st out i ts (Ok tt, bump s') o.
+  Proof.
+    unfold step_outcome. destruct out as [pc st'|st'|er line st'|]; [| | |exact (fun H => H)].
+    - intros (s2 & E & K & SS & FR & TY & CS & LS & OUT & LOC). inversion E; subst s2.
+      exists (bump s'). split; [reflexivity|]. split; [exact K|]. split; [exact SS|]. split; [exact FR|].
+      split; [exact TY|]. split; [exact CS|]. split; [exact LS|]. split; [exact OUT | exact LOC].
+    - intros (E0 & s2 & E & K & L & IM & O). inversion E; subst s2.
+      split; [exact E0|]. exists (bump s'). split; [reflexivity|]. split; [exact K|]. split; [exact L|].
+      split; [exact IM | exact O].
+    - intros (_ & _ & ie & s2 & E & _). discriminate.
+  Qed.
+
+  (* the ELSE probe behind a THEN clause that has run *)
+  Lemma after_nested out i ts (m : M unit) x o rest :
+    skipn (i + length ts) toks = rest -> (rest = [] \/ exists tr, rest = TColon :: tr) ->
+    step_outcome p s toks li after st out i ts (m x) o ->
+    step_outcome p s toks li after st out i ts ((m ;;; else_probe) x) o.
+  Proof.
+    intros Hsk Hrest H. unfold bind. destruct (m x) as [[[]|e l|pp| |] s'] eqn:Em; try exact H.
+    assert (Hprobe : else_probe s' = (Ok tt, bump s')).
+    { unfold step_outcome in H. destruct out as [pc st'|st'|er line st'|].
+      - destruct H as (s2 & E & K & _ & _ & _ & _ & _ & _ & LOC). inversion E; subst s2.
+        destruct LOC as [[_ Hloc]|[(n & li' & stmts & _ & Hp & Hloc)|[[_ Hloc]|[(fr & rs & cr & Hst & _ & Hloc)
+                        |(v & lp & kept & k & lm & _ & _ & Hn & _ & Hloc)]]]].
+        + apply (probe_same_line s' K); [rewrite Hloc; reflexivity|]. rewrite Hloc. cbn [loc_idx].
+          destruct Hrest as [->|(tr0 & ->)].
+          * rewrite (skipn_nil_nth _ _ Hsk). discriminate.
+          * destruct (skipn_cons_nth _ _ _ _ Hsk) as [Hc _]. rewrite Hc. discriminate.
+        + destruct (Hlines li' n stmts Hp) as (t & l' & Ht & Hne).
+          apply (probe_at s' n (t :: l') K); [rewrite Hloc; reflexivity | exact Ht|].
+          rewrite Hloc. cbn. congruence.
+        + apply (probe_same_line s' K); [rewrite Hloc; reflexivity|]. rewrite Hloc. cbn [loc_idx].
+          assert (Hnone : nth_error toks (length toks) = None) by (apply nth_error_None; apply le_n).
+          rewrite Hnone. discriminate.
+        + destruct (Hland_calls fr) as (n & tsn & A & B & C); [rewrite Hst; apply in_or_app; right; left; reflexivity|].
+          apply (probe_at s' n tsn K); try rewrite Hloc; assumption.
+        + destruct (Hland_loops lm) as (n & tsn & A & B & C); [eapply nth_error_In; exact Hn|].
+          apply (probe_at s' n tsn K); try rewrite Hloc; assumption.
+      - destruct H as (_ & s2 & E & (K1 & K2 & K3 & K4 & K5 & K6) & Hloc & Himm & _). inversion E; subst s2.
+        apply probe_no_else.
+        + unfold line_exists, line_ok. rewrite Hloc. exact I.
+        + unfold cur_toks. rewrite Hloc. cbn [loc_line imm0 loc_idx]. rewrite K6, Himm. discriminate.
+      - destruct H as (_ & _ & ie & s2 & E & _). discriminate.
+      - contradiction. }
+    rewrite Hprobe. apply outcome_bump. exact H.
+  Qed.
+
+  Lemma outcome_shift out i ts i2 ts2 run o : i + length ts = i2 + length ts2 ->
+    step_outcome p s toks li after st out i ts run o -> step_outcome p s toks li after st out i2 ts2 run o.
+  Proof. intros E. unfold step_outcome. rewrite E. exact (fun H => H). Qed.
+
+  (* IF c THEN <statement> *)
+  Lemma step_if_stmt c c' tc stmt tn t0 tn' rest i :
+    skipn i toks = (TIf :: tc ++ TThen :: tn) ++ rest -> (rest = [] \/ exists tr, rest = TColon :: tr) ->
+    tr c = Some c' -> Renders 0 c' tc -> S d + pdepth c' < max_nesting -> xsize c <= F ->
+    tn = t0 :: tn' -> (forall x, t0 <> TNumber x) -> forallb plain_tok tn = true ->
+    steps_as F p s toks (S d) li after st stmt (S (S i + length tc)) tn ->
+    steps_as F p s toks d li after st (SIf c (AStmt stmt) None) i (TIf :: tc ++ TThen :: tn).
+  Proof.
+    intros Hsk Hrest Htr Hren Hdp HF Etn Hnum Hplain (fn & Hn).
+    cbn [app] in Hsk. rewrite <- app_assoc in Hsk. cbn [app] in Hsk.
+    destruct (skipn_cons_nth _ _ _ _ Hsk) as [H0 Hs1].
+    destruct (expr_sem_at s toks Htoks c' tc Hren (S d) (S i) (TThen :: tn ++ rest) Hs1 eq_refl Hdp) as (fe & Hfe).
+    pose proof (skipn_app_len _ _ _ _ Hs1) as Hs2.
+    set (j := S i + length tc) in *.
+    destruct (skipn_cons_nth _ _ _ _ Hs2) as [H2 Hs3].
+    assert (H3 : nth_error toks (S j) = Some t0).
+    { rewrite Etn in Hs3. cbn [app] in Hs3. apply (skipn_cons_nth _ _ _ _ Hs3). }
+    pose proof (skipn_app_len _ _ _ _ Hs3) as Hs4.
+    assert (Hlen : S j + length tn + length rest = length toks).
+    { assert (Hne : tn ++ rest <> []) by (rewrite Etn; discriminate).
+      pose proof (skipn_all_length toks (S j) _ Hs3 Hne) as Hl. rewrite app_length in Hl. lia. }
+    assert (Hsum : S j + length tn = i + length (TIf :: tc ++ TThen :: tn)).
+    { cbn [length]. rewrite app_length. cbn [length]. unfold j. lia. }
+    exists (S (S (fe + fn + length tn + 3))). intros fuel Hf r o. destruct fuel as [|f]; [lia|].
+    destruct (Hfe f ltac:(lia) (S r) o) as (i1 & r1 & o1 & Hev & Hi1 & HW1). apply (W_off s Hwarn) in HW1. subst o1.
+    unfold step_result. cbn [exec]. unfold RefSem.ev.
+    rewrite (ref_expr_is_den c c' st s F Htr (same_store_reads _ _ Hrel) HF).
+    pose proof (den_plain s c c' Htr) as Hp.
+    assert (Hrun : evaluate_statement (S f) d (at_idx s i r o) =
+              match den s c' with
+              | Ok v =>
+                  (if to_bool v then
+                     evaluate_statement f (S d) ;;; else_probe
+                   else repeat_m f (skip_body (evaluate_statement f (S d))) tt)
+                  (if to_bool v then at_idx s (S j) (S (S r1)) o else at_idx s (S j) (S r1) o)
+              | Err er l => (Err er l, at_idx s i1 r1 o)
+              | Panic pp => (Panic pp, at_idx s i1 r1 o)
+              | OutOfFuel => (OutOfFuel, at_idx s i1 r1 o)
+              | OracleMiss => (OracleMiss, at_idx s i1 r1 o)
+              end).
+    { cbn [evaluate_statement]. rewrite Hd.
+      unfold evaluate_statement_body.
+      rewrite bind_get_run. change (enable_tracing (at_idx s i r o)) with (enable_tracing s). rewrite Htrace. cbv iota.
+      rewrite bind_ret'.
+      erewrite bind_ok by (apply (next_some s toks Htoks); exact H0). cbv iota beta.
+      unfold evaluate_if_statement, Eval.expr. erewrite ExprSem.bind_run by exact Hev.
+      destruct (den s c') as [v|er l|pp| |]; try reflexivity.
+      rewrite (Hi1 v eq_refl). fold j.
+      erewrite bind_ok by (apply (expect_ok s toks Htoks _ _ _ TThen TThen H2); reflexivity).
+      destruct (to_bool v); [|reflexivity].
+      unfold statement_or_goto_line_number. rewrite bind_assoc.
+      erewrite bind_ok by apply (peek_at s toks Htoks). rewrite H3.
+      destruct t0; try reflexivity. exfalso. eapply Hnum. reflexivity. }
+    rewrite Hrun. clear Hrun.
+    destruct (den s c') as [v|er l|pp| |]; cbn [plain conv fail_at] in *; try contradiction.
+    2:{ unfold step_outcome. destruct er; try contradiction; destruct l; try contradiction;
+          (split; [reflexivity|]; split; [reflexivity|]; eexists _, _; split; [reflexivity|];
+           split; [reflexivity|]; split; [apply keeps_at; assumption|]; split; [reflexivity | split; [reflexivity | discriminate]]). }
+    rewrite truth_to_bool. destruct (to_bool v).
+    - (* the clause runs, one level down *)
+      apply (outcome_shift _ (S j) tn); [exact Hsum|].
+      apply (after_nested _ (S j) tn (evaluate_statement f (S d)) _ o rest); [exact Hs4 | exact Hrest|].
+      apply (Hn f ltac:(lia)).
+    - (* the rest of the line is skipped *)
+      destruct (scan_skip s toks Htoks (evaluate_statement f (S d)) rest o Hrest tn (S j) (S r1) f Hplain Hs3 Hlen ltac:(lia))
+        as (r' & Hscan).
+      rewrite Hscan. unfold step_outcome.
+      eexists. split; [reflexivity|]. split; [apply keeps_at; assumption|].
+      split; [apply same_store_at; destruct Hrel as [A B]; split; [exact A | exact B]|].
+      split; [reflexivity|]. split; [intros HT; exact HT|].
+      split; [left; split; reflexivity|]. split; [left; split; reflexivity|].
+      split; [exists []; split; [rewrite app_nil_r; reflexivity | cbn; rewrite app_nil_r; reflexivity]|].
+      right. right. left. split; reflexivity.
+  Qed.
+End StepIf.
+
 Inductive reach (P : interp -> Prop) : interp -> Prop :=
 | reach_now s : P s -> reach P s
 | reach_turn s (Q : interp -> Prop) :
@@ -1207,6 +1512,34 @@ Section Program.
       exists s2. split; [exact Ha|]. rewrite Q2. apply (Sim_eol li2 st s2 n2 stmts2 P1 HS2).
   Qed.
 
+  (* where RETURN and NEXT land there is no ELSE; every line is stored *)
+  Lemma pcloc_lands s pc l : pcloc (st_toks s) pc l -> lands_ok s l.
+  Proof.
+    intros (n & stmts & toks & _ & Ht & Hl & PC). exists n, toks. split; [exact Hl|]. split; [exact Ht|].
+    destruct PC as [(tl & Q & _)|(Q & _)].
+    - destruct (skipn_cons_nth _ _ _ _ Q) as [Hc _]. rewrite Hc. discriminate.
+    - rewrite (skipn_nil_nth _ _ Q). discriminate.
+  Qed.
+
+  Lemma calls_land st s : calls_rel st s -> forall fr, In fr (stack s) -> lands_ok s (fr_ret fr).
+  Proof.
+    intros [_ B] fr Hin. apply in_rev in Hin. revert Hin. induction B as [|pc fr0 l l' [_ H] _ IH]; intros Hin; [destruct Hin|].
+    destruct Hin as [<-|Hin]; [apply (pcloc_lands s pc); exact H | apply IH; exact Hin].
+  Qed.
+
+  Lemma loops_land st s : loops_rel st s -> forall lp, In lp (loops s) -> lands_ok s (lp_loc lp).
+  Proof.
+    unfold loops_rel. intros B lp Hin. revert Hin. induction B as [|rl lp0 l l' (_ & _ & _ & H) _ IH]; intros Hin; [destruct Hin|].
+    destruct Hin as [<-|Hin]; [apply (pcloc_lands s (rl_body rl)); exact H | apply IH; exact Hin].
+  Qed.
+
+  Lemma Inv_lines s : Inv s -> forall li n stmts, nth_error p li = Some (n, stmts) ->
+    exists t l', toks_get n (st_toks s) = Some (t :: l') /\ t <> TElse.
+  Proof.
+    intros HI li n stmts Hp. destruct (i_lines s HI li n stmts Hp) as (toks & Ht & HL).
+    destruct (LRen_nonempty _ _ _ HL) as (t & l' & -> & Hne & _). exists t, l'. split; assumption.
+  Qed.
+
   (* every statement of the fragment steps as its step lemma says *)
   Lemma sren_steps s toks li after st d stmt ts rest i :
     Inv s -> fst (cur_tokens s) = Ok toks -> same_store st s -> calls_rel st s -> loops_rel st s -> typed s ->
@@ -1216,8 +1549,11 @@ Section Program.
   Proof.
     intros HI Htoks Hrel Hcr Hlr Hty Hd Hsk Hrest HS.
     pose proof (i_trace s HI) as Htr. pose proof (i_warn s HI) as Hw.
-    destruct HS as [v e e' te H1 H2 H3 H4 H5|items mitems ti H1 H2 H3 H4|n x H1|n x H1| | |c c' tc n x H1 H2 H3 H4 H5
-                      |v a a' ta b b' tb stp tstep A1 A2 A3 A4 B1 B2 B3 B4 HC|v].
+    revert i Hd Hsk Hrest.
+    induction HS as [d rest v e e' te H1 H2 H3 H4 H5|d rest items mitems ti H1 H2 H3 H4|d rest n x H1|d rest n x H1|d rest|d rest
+                    |d rest c c' tc n x H1 H2 H3 H4 H5
+                    |d rest v a a' ta b b' tb stp tstep A1 A2 A3 A4 B1 B2 B3 B4 HC|d rest v
+                    |d rest c c' tc stmt tn H1 H2 H3 H4 H5 H6 IH]; intros i Hd Hsk Hrest.
     - eapply (step_let F p s toks Htoks Htr Hw d Hd li after st Hrel v e e' te rest i); eassumption.
     - eapply (step_print F p s toks Htoks Htr Hw d Hd li after st Hrel items mitems ti rest i); eassumption.
     - eapply (step_goto F p s toks Htoks Htr Hw (Inv_jump s HI) d Hd li after st Hrel n x rest i); eassumption.
@@ -1231,6 +1567,14 @@ Section Program.
     - eapply (step_for F p s toks Htoks Htr Hw d Hd li after st Hrel v a a' ta b b' tb stp tstep rest i); try eassumption.
       apply loops_lsame. exact Hlr.
     - eapply (step_next F p s toks Htoks Htr Hw d Hd li after st Hrel v rest i); [exact Hsk | apply loops_lsame; exact Hlr | exact Hty].
+    - destruct (SRen_head _ _ _ _ _ H6) as (t0 & tn' & Etn & Hnum).
+      apply (step_if_stmt F p s toks Htoks Htr Hw (Inv_lines s HI) (calls_land st s Hcr) (loops_land st s Hlr)
+               d Hd li after st Hrel c c' tc stmt tn t0 tn' rest i Hsk Hrest H1 H2 H3 H4 Etn Hnum (SRen_plain _ _ _ _ _ H6)).
+      apply IH; [exact H5| |exact Hrest].
+      cbn [app] in Hsk. rewrite <- app_assoc in Hsk. cbn [app] in Hsk.
+      destruct (skipn_cons_nth _ _ _ _ Hsk) as [_ Hs1].
+      pose proof (skipn_app_len _ _ _ _ Hs1) as Hs2.
+      destruct (skipn_cons_nth _ _ _ _ Hs2) as [_ Hs3]. exact Hs3.
   Qed.
 
   Definition FailsWith (er : rerr) (line : N) (st' : rstate) (s1 : interp) : Prop :=
